@@ -344,7 +344,11 @@ Inductive case :=
 | KForced (c : fcase)
 | KStress (nops : nat) (hung : bool) (final : Z)           (* nops begin/cease pairs vs waiters *)
 | KDestroy (kinds : list bool) (finals : Z) (hung : bool)  (* ops through the real swamp auto-destroy path, run one after another *)
-| KPoll (nlocks : nat) (hung : bool).                      (* safeops: nlocks Lock/Unlock pairs vs WaitForUnlock *)
+| KPoll (nlocks : nat) (hung : bool)                       (* safeops: nlocks Lock/Unlock pairs vs WaitForUnlock *)
+| KSummon (nreq : nat) (ncancelled : nat) (hung : bool).   (* nreq requests queued in hydra.SummonSwamp's per-name slot,
+                                                              ncancelled contexts cancelled; hung: a request was still asleep
+                                                              in the queue after every summon in flight had finished
+                                                              (the slot protocol itself is Conc/Summon.v) *)
 
 (* model prediction for a sequential run of the auto-destroy programs: every op runs to the end *)
 Fixpoint dseq (rebal : bool) (s : dst) (i : nat) (fuel : nat) : option dst :=
@@ -375,6 +379,7 @@ Definition check_case (k : case) : N :=
            | None => 1%N
            end
   | KPoll _ hung => if hung then 6%N else 0%N
+  | KSummon _ _ hung => if hung then 9%N else 0%N
   end.
 
 Definition check_all (cases : list case) : list verdict := check_cases check_case cases.
